@@ -464,6 +464,13 @@ class StrRef:
                 return None
             if xs:
                 s.extend(xs); self.buf[i] = True
+        elif k == "ctor" and n == 2:
+            xs = parse_units0(a[1])
+            if xs is None or any(x == 0 for x in xs[1:]):
+                return None
+            if xs and xs[0] == 0:
+                tag = "ctor-leading-nul"
+            s[:] = xs; self.buf[i] = len(xs) > 0
         elif k in ("appz", "assignz") and n == 2:
             xs = parse_units0(a[1])
             if xs is None:
@@ -718,6 +725,48 @@ def gen_oc(r, maxops):
     return ops
 
 
+class ScRef:
+    def __init__(self):
+        self.slot = [False] * 8
+
+    def step(self, t):
+        k = t[1]; a = t[2:]
+        if k == "new" and len(a) == 1 and a[0].isdigit() and int(a[0]) <= 200:
+            self.slot = [False] * 8
+        elif k in ("reset", "clear") and not a:
+            self.slot = [False] * 8
+        elif k == "get" and len(a) == 1 and a[0].isdigit() and int(a[0]) < 8:
+            if self.slot[int(a[0])]:
+                return None
+            self.slot[int(a[0])] = True
+        elif k == "release" and len(a) == 1 and a[0].isdigit() and int(a[0]) < 8:
+            if not self.slot[int(a[0])]:
+                return None
+            self.slot[int(a[0])] = False
+        else:
+            return None
+        return k
+
+
+def gen_sc(r, maxops):
+    """string cache with a small maximum size, so that release / reset beyond the bound destroy strings"""
+    ref = ScRef(); ops = []
+    nops = r.range(3, maxops)
+    _emit(ref, ops, "sc new %d" % r.choice([0, 1, 2, 3, 100]))
+    tries = 0
+    while len(ops) < nops and tries < 6 * nops:
+        tries += 1
+        k = r.weighted([("get", 10), ("release", 9), ("reset", 1), ("clear", 1), ("new", 1)])
+        if k in ("get", "release"):
+            line = "sc %s %d" % (k, r.below(8))
+        elif k == "new":
+            line = "sc new %d" % r.choice([0, 1, 2, 3])
+        else:
+            line = "sc %s" % k
+        _emit(ref, ops, line)
+    return ops
+
+
 class PoolRef:
     def step(self, t):
         k = t[1]
@@ -728,28 +777,43 @@ class PoolRef:
             return k
         if k == "clear" and len(a) == 1:
             return k
-        if k == "get" and len(a) == 2 and parse_units(a[1]) is not None:
-            return k
+        if k in ("get", "gets") and len(a) == 2:
+            xs = parse_units0(a[1])
+            if xs is None:
+                return None
+            # a key whose first unit is U+0000 (with a non-zero length) is its own class
+            return "get-leading-nul" if xs and xs[0] == 0 else k
         return None
 
 
-def gen_pool(r, maxops):
+def gen_pool(r, maxops, leading=False):
+    """keys are length-carrying unit sequences: with embedded U+0000, prefixes of each other, few buckets"""
     ref = PoolRef(); ops = []
     nops = r.range(2, maxops)
     if r.chance(2, 3):
         _emit(ref, ops, "pool new 0 %d" % r.choice([1, 2, 3, 7, 11, 101]))
-    alpha = r.choice([2, 3, 9])
+    alpha = r.choice([[1, 2], [0, 1, 2], [0, 1, 2, 3], [0, 97, 98], list(range(1, 10))])
     seen = []
+
+    def us(xs):
+        return ".".join(str(x) for x in xs) or "-"
     while len(ops) < nops:
         i = 0 if r.chance(4, 5) else 1
-        k = r.weighted([("get", 20), ("clear", 1), ("new", 1)])
-        if k == "get":
-            if seen and r.chance(1, 3):
-                u = r.choice(seen)
+        k = r.weighted([("get", 10), ("gets", 10), ("clear", 1), ("new", 1)])
+        if k in ("get", "gets"):
+            m = r.below(5)
+            if seen and m == 0:
+                xs = list(r.choice(seen))                                   # the same key again
+            elif seen and m == 1:
+                base = r.choice(seen); xs = list(base[:r.below(len(base) + 1)])   # a prefix of an earlier key
+            elif seen and m == 2:
+                xs = list(r.choice(seen)) + [r.choice(alpha) for _ in range(r.range(1, 3))]   # an extension
             else:
-                u = ".".join(str(r.range(1, alpha)) for _ in range(r.weighted([(0, 1), (1, 3), (2, 4), (3, 3), (r.range(4, 12), 1)]))) or "-"
-                seen.append(u)
-            line = "pool get %d %s" % (i, u)
+                xs = [r.choice(alpha) for _ in range(r.weighted([(0, 1), (1, 3), (2, 4), (3, 3), (r.range(4, 12), 1)]))]
+            if xs and xs[0] == 0 and not leading:
+                xs[0] = r.choice([a for a in alpha if a != 0])
+            seen.append(xs)
+            line = "pool %s %d %s" % (k, i, us(xs))
         elif k == "clear":
             line = "pool clear %d" % i
         else:
@@ -758,7 +822,7 @@ def gen_pool(r, maxops):
     return ops
 
 
-REFS = {"cmp": CmpRef, "oc": OcRef, "pool": PoolRef, "bmp": BmpRef, "vec": VecRef, "map": MapRef, "set": SetRef, "deq": DeqRef, "lst": LstRef, "str": StrRef}
+REFS = {"sc": ScRef, "cmp": CmpRef, "oc": OcRef, "pool": PoolRef, "bmp": BmpRef, "vec": VecRef, "map": MapRef, "set": SetRef, "deq": DeqRef, "lst": LstRef, "str": StrRef}
 
 
 def tags(kind, ops):
@@ -1033,10 +1097,12 @@ def gen_str(r, maxops, defects=True):
         k = r.weighted([("app", 9), ("appstr", 3), ("appsub", 3), ("appn", 4), ("push", 4), ("ins", 6), ("insn", 4), ("erase", 6),
                         ("eraseat", 3), ("clear", 1), ("resize", 4), ("reserve", 2), ("assign", 3), ("assignn", 1),
                         ("assignsub", 4), ("substr", 4), ("swap", 2), ("new", 1), ("eraser", 3), ("assignit", 2),
-                        ("appz", 3), ("assignz", 2), ("insz", 2), ("assignp", 2)])
+                        ("appz", 3), ("assignz", 2), ("insz", 2), ("assignp", 2), ("ctor", 2)])
         c = r.range(1, 9)
         if k == "app":
             line = "str app %d %s" % (i, us(r.weighted([(0, 1), (1, 3), (r.range(2, 6), 5), (r.range(7, 20), 1)])))
+        elif k == "ctor":
+            line = "str ctor %d %s" % (i, us(r.range(0, 6)))
         elif k in ("appz", "assignz", "insz", "assignp"):
             xs = [r.range(1, 9) for _ in range(r.range(0, 6))]
             if k != "assignp" and xs and r.chance(1, 4):
@@ -1116,4 +1182,7 @@ def gen_str(r, maxops, defects=True):
         else:
             line = "str swap %d %d" % (i, j)
         _emit(ref, ops, line)
+    if defects and r.chance(1, 3):
+        # a counted buffer that starts with U+0000 (last request: the string then contains a NUL)
+        _emit(ref, ops, "str ctor %d 0.%s" % (r.below(ns), us(r.range(1, 3))))
     return ops
